@@ -56,6 +56,10 @@ type testCase struct {
 	FailFlushFrom int `json:"fail_flush_from"`
 	// the i-th ResolveLock RPC is answered with an empty response body (candidate finding probe, not in default runs)
 	ResolveNilAt int `json:"resolve_nil_at"`
+	// the caller's context of Commit: "" / "never" = never cancelled, "after" = cancelled right after Commit returns
+	// (the usual `defer cancel()`), "rpc" = cancelled while the CancelAtRPC-th ResolveLock RPC of the background task is in flight
+	Cancel      string `json:"cancel"`
+	CancelAtRPC int    `json:"cancel_at_rpc"`
 }
 
 type layoutChange struct {
@@ -90,6 +94,8 @@ type shim struct {
 	resolveChange map[int][]layoutChange
 	failFlushFrom int
 	resolveNilAt  int
+	cancelAt      int
+	cancelFn      context.CancelFunc
 }
 
 // splitAt splits the region containing key at key (no-op if key is already a region start)
@@ -184,6 +190,9 @@ func (s *shim) SendRequest(ctx context.Context, addr string, req *tikvrpc.Reques
 			} else {
 				s.mergeAt(ch.key)
 			}
+		}
+		if s.cancelFn != nil && s.cancelAt > 0 && s.nResolve == s.cancelAt {
+			s.cancelFn() // the caller of Commit gives up its context while the background resolve is at work
 		}
 		nilBody := s.resolveNilAt > 0 && s.nResolve == s.resolveNilAt
 		if nilBody {
@@ -455,7 +464,17 @@ func runCase(tc testCase) (res result) {
 		err = nil
 		switch tc.End {
 		case "commit":
-			err = txn.Commit(ctx)
+			cctx, cancel := context.WithCancel(ctx)
+			if tc.Cancel == "rpc" {
+				sh.mu.Lock()
+				sh.cancelAt, sh.cancelFn = tc.CancelAtRPC, cancel
+				sh.mu.Unlock()
+			}
+			err = txn.Commit(cctx)
+			if tc.Cancel == "after" {
+				cancel()
+			}
+			defer cancel()
 			res.CommitTS = committer.GetCommitTS()
 		case "rollback":
 			err = txn.Rollback()
